@@ -274,14 +274,18 @@ def queries(tier):
     f = HeaderTxHarness
     clean = {"ready": 1, "lc_gap": 0, "lc_mask": 0}
     hint = {"*": {"lc_gap": 0, "lc_mask": 0}}
-    qs = [Query("bmc_clean", f, 26 if quick else 36, layer=clean, split=False, timeout=3000, hints=hint,
+    ctl = ["credit_use", "ready_when_credit", "tx_order", "dl_flag", "recovery_on_mismatch", "retry_req", "tx_format"]
+    qs = [Query("bmc_content", f, 22 if quick else 28, layer=dict(clean, k=0), split=False, timeout=3000, asserts=["tx_content"],
+                covers=[], desc="layer as bmc_clean, tracked header = first accepted: its 96 data bits and link control "
+                                "fields on the wire (first transmission and retransmission) equal what the protocol layer queued"),
+          Query("bmc_clean", f, 26 if quick else 36, layer=clean, split=False, timeout=3000, hints=hint, asserts=ctl,
                 covers=["two_headers_sent", "retransmit_dl", "retire_then_reuse", "tracked_sent", "mismatch"] +
                        ([] if quick else ["retx_two", "fifth_header"]),
                 desc="layer: PHY always ready, partner commands uncorrupted and without invalid cycles; command kinds, "
                      "subtypes, timing, header queue (valid and content), LRTY timing free"),
-          Query("bmc_corrupt", f, 12 if quick else 18, layer={"ready": 1}, split=False, timeout=2000, covers=[],
+          Query("bmc_corrupt", f, 12 if quick else 18, layer={"ready": 1}, split=False, timeout=2000, covers=[], asserts=ctl,
                 desc="layer: PHY always ready; corruption masks and invalid cycles in the partner stream free (shallow)"),
-          Query("bmc_free", f, 12 if quick else 20, split=False, timeout=600 if quick else 2000, covers=[], required=False,
+          Query("bmc_free", f, 12 if quick else 20, split=False, timeout=600 if quick else 2000, covers=[], required=False, asserts=ctl,
                 desc="best effort: everything free incl. PHY ready")]
     qs.append(Query("cosim", f, 0, kind="cosim", cosim_cycles=200 if quick else 1000))
     return qs
